@@ -212,9 +212,184 @@ package calendar
 //@     ite(m*100+d >= 1222 || m*100+d <= 119, 9,
 //@     ite(m*100+d <= 218, 10, 11)))))))))))
 
+//@ func (solar *Solar) GetXingZuo() string [C20]
+//@   ensures result == SolarUtil.XINGZUO[signOf(solar.month, solar.day)]
+//@   ensures 0 <= signOf(solar.month, solar.day) && signOf(solar.month, solar.day) <= 11
+
+//@ # the day after (m, d) in a leap year (so that 2-29 is covered)
+//@ spec func nextM(m int, d int) int
+//@   = ite(d < dim(2000, m), m, ite(m == 12, 1, m+1))
+//@ spec func nextD(m int, d int) int
+//@   = ite(d < dim(2000, m), d+1, 1)
+
+//@ # every date has exactly one sign 0..11 (signOf is a function), signs follow each other in cyclic order,
+//@ # each covering one contiguous run, starting on its conventional day
+//@ lemma signCyclic(m int, d int) [C20]
+//@   requires validYmd(2000, m, d)
+//@   ensures 0 <= signOf(m, d) && signOf(m, d) <= 11
+//@   ensures signOf(nextM(m, d), nextD(m, d)) == signOf(m, d) || signOf(nextM(m, d), nextD(m, d)) == modf(signOf(m, d)+1, 12)
+
+//@ lemma signStarts() [C20]
+//@   ensures signOf(3, 21) == 0 && signOf(3, 20) == 11 && signOf(4, 20) == 1 && signOf(4, 19) == 0 && signOf(5, 21) == 2 && signOf(5, 20) == 1
+//@   ensures signOf(6, 22) == 3 && signOf(6, 21) == 2 && signOf(7, 23) == 4 && signOf(7, 22) == 3 && signOf(8, 23) == 5 && signOf(8, 22) == 4
+//@   ensures signOf(9, 23) == 6 && signOf(9, 22) == 5 && signOf(10, 24) == 7 && signOf(10, 23) == 6 && signOf(11, 23) == 8 && signOf(11, 22) == 7
+//@   ensures signOf(12, 22) == 9 && signOf(12, 21) == 8 && signOf(1, 20) == 10 && signOf(1, 19) == 9 && signOf(2, 19) == 11 && signOf(2, 18) == 10
+
+//@ # exactly one day of a month is its k-th weekday w (k in 1..4), exactly one is its last weekday w
+//@ lemma kthWeekday(y int, m int, k int, w int, d int) [C20]
+//@   requires inYears(y) && 1 <= m && m <= 12 && 1 <= k && k <= 4 && 0 <= w && w <= 6 && !(y == 1582 && m == 10)
+//@   requires 1 <= d && d <= dim(y, m)
+//@   ensures (wd(y, m, d) == w && divf(d-1, 7)+1 == k) == (d == 1 + modf(w-wd(y, m, 1), 7) + 7*(k-1))
+//@   ensures 1 + modf(w-wd(y, m, 1), 7) + 7*(k-1) <= 28
+//@   use dayLinear2(y, m, d)
+
+//@ lemma lastWeekday(y int, m int, w int, d int) [C20]
+//@   requires inYears(y) && 1 <= m && m <= 12 && 0 <= w && w <= 6 && !(y == 1582 && m == 10)
+//@   requires 1 <= d && d <= dim(y, m)
+//@   ensures (wd(y, m, d) == w && d+7 > dim(y, m)) == (d == dim(y, m) - modf(wd(y, m, dim(y, m))-w, 7))
+//@   ensures dim(y, m) - modf(wd(y, m, dim(y, m))-w, 7) >= 1
+//@   use dayLinear2(y, m, d)
+//@   use dayLinear2(y, m, dim(y, m))
+
+//@ # fixed-date festivals on exactly their month and day; k-th / last weekday festivals on exactly that occurrence
+//@ ghost func festivalRules(s *Solar) [C20]
+//@   requires inYears(s.year)
+//@   body
+//@     l := s.GetFestivals()
+//@     assert(lhas(l, "元旦节") == (s.month == 1 && s.day == 1))
+//@     assert(lhas(l, "情人节") == (s.month == 2 && s.day == 14))
+//@     assert(lhas(l, "妇女节") == (s.month == 3 && s.day == 8))
+//@     assert(lhas(l, "植树节") == (s.month == 3 && s.day == 12))
+//@     assert(lhas(l, "消费者权益日") == (s.month == 3 && s.day == 15))
+//@     assert(lhas(l, "愚人节") == (s.month == 4 && s.day == 1))
+//@     assert(lhas(l, "劳动节") == (s.month == 5 && s.day == 1))
+//@     assert(lhas(l, "青年节") == (s.month == 5 && s.day == 4))
+//@     assert(lhas(l, "儿童节") == (s.month == 6 && s.day == 1))
+//@     assert(lhas(l, "建党节") == (s.month == 7 && s.day == 1))
+//@     assert(lhas(l, "建军节") == (s.month == 8 && s.day == 1))
+//@     assert(lhas(l, "教师节") == (s.month == 9 && s.day == 10))
+//@     assert(lhas(l, "国庆节") == (s.month == 10 && s.day == 1))
+//@     assert(lhas(l, "万圣节前夜") == (s.month == 10 && s.day == 31))
+//@     assert(lhas(l, "万圣节") == (s.month == 11 && s.day == 1))
+//@     assert(lhas(l, "平安夜") == (s.month == 12 && s.day == 24))
+//@     assert(lhas(l, "圣诞节") == (s.month == 12 && s.day == 25))
+//@     w := wd(s.year, s.month, s.day)
+//@     k := divf(s.day-1, 7) + 1
+//@     assert(lhas(l, "母亲节") == (s.month == 5 && k == 2 && w == 0))
+//@     assert(lhas(l, "全国助残日") == (s.month == 5 && k == 3 && w == 0))
+//@     assert(lhas(l, "父亲节") == (s.month == 6 && k == 3 && w == 0))
+//@     assert(lhas(l, "全民国防教育日") == (s.month == 9 && k == 3 && w == 6))
+//@     assert(lhas(l, "世界住房日") == (s.month == 10 && k == 1 && w == 1))
+//@     assert(lhas(l, "感恩节") == (s.month == 11 && k == 4 && w == 4))
+//@     assert(lhas(l, "全国中小学生安全教育日") == (s.month == 3 && w == 1 && s.day+7 > dim(s.year, 3)))
+//@     assert(llen(l) <= 3)
+
+//@ # ================================================================ SolarWeek (C15)
+//@ spec func weekOK(w *SolarWeek) bool
+//@   = inYears(w.year) && validYmd(w.year, w.month, w.day) && 0 <= w.start && w.start <= 6
+
+//@ # offset of a day inside its week: number of days since the most recent week start
+//@ spec func woff(j int, start int) int
+//@   = modf(modf(j+1, 7)-start, 7)
+
+//@ func (solarWeek *SolarWeek) GetIndex() int [C15]
+//@   requires weekOK(solarWeek)
+//@   ensures result == divf(solarWeek.day+woff(jdn(solarWeek.year, solarWeek.month, 1), solarWeek.start)-1, 7) + 1
+
+//@ func (solarWeek *SolarWeek) GetIndexInYear() int [C15]
+//@   requires weekOK(solarWeek)
+//@   ensures result == divf(doy(solarWeek.year, solarWeek.month, solarWeek.day)+woff(jdn(solarWeek.year, 1, 1), solarWeek.start)-1, 7) + 1
+
+//@ func (solarWeek *SolarWeek) GetFirstDay() *Solar [C15]
+//@   requires weekOK(solarWeek) && jdnInRange(jdn(solarWeek.year, solarWeek.month, solarWeek.day)-6)
+//@   ensures sjdn(result) == jdn(solarWeek.year, solarWeek.month, solarWeek.day) - woff(jdn(solarWeek.year, solarWeek.month, solarWeek.day), solarWeek.start)
+//@   ensures wd(result.year, result.month, result.day) == solarWeek.start
+//@   ensures inYears(result.year) && result.hour == 0 && result.minute == 0 && result.second == 0
+
+//@ # a week is the seven consecutive days starting on its first weekday that contain its date
+//@ ghost func weekDays(w *SolarWeek, i int) [C15]
+//@   requires weekOK(w) && jdnInRange(jdn(w.year, w.month, w.day)-6) && jdnInRange(jdn(w.year, w.month, w.day)+6) && 0 <= i && i <= 6
+//@   split i in 0..6
+//@   body
+//@     f := w.GetFirstDay()
+//@     l := w.GetDays()
+//@     assert(llen(l) == 7)
+//@     assert(sjdn(lat[*Solar](l, i)) == sjdn(f)+i)
+//@     assert(sjdn(f) <= jdn(w.year, w.month, w.day) && jdn(w.year, w.month, w.day) <= sjdn(f)+6)
+//@     assert(wd(f.year, f.month, f.day) == w.start)
+
+//@ # moving n whole weeks equals moving 7n days; n then -n returns to the starting week
+//@ ghost func weekNext(w *SolarWeek, n int) [C15]
+//@   requires weekOK(w) && -100000 <= n && n <= 100000 && jdnInRange(jdn(w.year, w.month, w.day)+7*n)
+//@   body
+//@     v := w.Next(n, false)
+//@     assert(jdn(v.year, v.month, v.day) == jdn(w.year, w.month, w.day)+7*n && v.start == w.start && validYmd(v.year, v.month, v.day) && inYears(v.year))
+//@     u := v.Next(-n, false)
+//@     jdnMono(u.year, u.month, u.day, w.year, w.month, w.day)
+//@     jdnMono(w.year, w.month, w.day, u.year, u.month, u.day)
+//@     assert(u.year == w.year && u.month == w.month && u.day == w.day && u.start == w.start)
+
 //@ # ================================================================ SolarMonth / Season / HalfYear / Year (C15)
 
 //@ func (solarMonth *SolarMonth) Next(months int) *SolarMonth [C15 C04]
 //@   requires 1 <= solarMonth.month && solarMonth.month <= 12 && -1000000 <= solarMonth.year && solarMonth.year <= 1000000 && -1000000 <= months && months <= 1000000
 //@   ensures result.year*12 + result.month-1 == solarMonth.year*12 + solarMonth.month-1 + months
 //@   ensures 1 <= result.month && result.month <= 12
+
+//@ func (solarMonth *SolarMonth) GetYear() int
+//@   ensures result == solarMonth.year
+
+//@ # a month lists each of its days once in order (21 days for October 1582)
+//@ ghost func monthDays(sm *SolarMonth, i int) [C15]
+//@   requires inYears(sm.year) && 1 <= sm.month && sm.month <= 12 && 0 <= i && i < dim(sm.year, sm.month)
+//@   body
+//@     l := sm.GetDays()
+//@     assert(llen(l) == dim(sm.year, sm.month))
+//@     monthStep(sm.year, sm.month)
+
+//@ # n months forward then n back returns to the starting month; seasons, half-years and years likewise
+//@ ghost func monthNextBack(sm *SolarMonth, n int) [C15]
+//@   requires 1 <= sm.month && sm.month <= 12 && inYears(sm.year) && -100000 <= n && n <= 100000
+//@   body
+//@     a := sm.Next(n)
+//@     b := a.Next(-n)
+//@     assert(b.year == sm.year && b.month == sm.month)
+//@     c := sm.Next(1)
+//@     assert(c.year*12+c.month == sm.year*12+sm.month+1)
+
+//@ ghost func seasonRules(q *SolarSeason, n int) [C15]
+//@   requires 1 <= q.month && q.month <= 12 && inYears(q.year) && -10000 <= n && n <= 10000
+//@   body
+//@     assert(q.GetIndex() == divf(q.month-1, 3)+1)
+//@     l := q.GetMonths()
+//@     assert(llen(l) == 3)
+//@     assert(lat[*SolarMonth](l, 0).month == 3*divf(q.month-1, 3)+1 && lat[*SolarMonth](l, 1).month == 3*divf(q.month-1, 3)+2 && lat[*SolarMonth](l, 2).month == 3*divf(q.month-1, 3)+3)
+//@     assert(lat[*SolarMonth](l, 0).year == q.year && lat[*SolarMonth](l, 2).year == q.year)
+//@     a := q.Next(n)
+//@     assert(a.year*12+a.month-1 == q.year*12+q.month-1+3*n)
+//@     b := a.Next(-n)
+//@     assert(b.year == q.year && b.month == q.month)
+
+//@ ghost func halfYearRules(q *SolarHalfYear, n int) [C15]
+//@   requires 1 <= q.month && q.month <= 12 && inYears(q.year) && -10000 <= n && n <= 10000
+//@   body
+//@     assert(q.GetIndex() == divf(q.month-1, 6)+1)
+//@     l := q.GetMonths()
+//@     assert(llen(l) == 6)
+//@     assert(lat[*SolarMonth](l, 0).month == 6*divf(q.month-1, 6)+1 && lat[*SolarMonth](l, 5).month == 6*divf(q.month-1, 6)+6)
+//@     assert(lat[*SolarMonth](l, 0).year == q.year && lat[*SolarMonth](l, 5).year == q.year)
+//@     a := q.Next(n)
+//@     assert(a.year*12+a.month-1 == q.year*12+q.month-1+6*n)
+//@     b := a.Next(-n)
+//@     assert(b.year == q.year && b.month == q.month)
+
+//@ ghost func yearRules(q *SolarYear, n int) [C15]
+//@   requires inYears(q.year) && -10000 <= n && n <= 10000
+//@   body
+//@     l := q.GetMonths()
+//@     assert(llen(l) == 12)
+//@     assert(lat[*SolarMonth](l, 0).month == 1 && lat[*SolarMonth](l, 11).month == 12 && lat[*SolarMonth](l, 0).year == q.year && lat[*SolarMonth](l, 11).year == q.year)
+//@     a := q.Next(n)
+//@     assert(a.year == q.year+n)
+//@     b := a.Next(-n)
+//@     assert(b.year == q.year)
